@@ -33,7 +33,9 @@ RULE = ("1..7 ballots of one of the four types over 2..6 projects, drawn from 1.
         "different insertion histories (shuffled order, constructor vs incremental insertion, overwritten scores, "
         "delete + re-insert, duplicates, distinct-but-equal Project objects, int/mpq/Fraction scores, empty ballots); "
         "multiprofile built by conversion (as_multiprofile / profile=), from frozen ballots, or incrementally by "
-        "append/extend/second conversion; in 60 % of the cases ballots that were already frozen / inserted are EDITED IN "
+        "append/extend/update/second conversion, the ballots being handed over as list, tuple, generator expression, "
+        "map(), iter(list) or Profile objects (built by constructor, extend or +=), with shared objects or with "
+        "TEMPORARIES built on the fly; in 60 % of the cases ballots that were already frozen / inserted are EDITED IN "
         "PLACE (same Python object, every mutator of the class: add/update/|=/discard/remove/-=, b[p]=s/update/|=/"
         "setdefault/pop/del/popitem/clear, append) and frozen / extended / converted again, incl. edit-and-revert; "
         "every case executed in separate interpreters under each PYTHONHASHSEED of the tier, project "
@@ -170,7 +172,41 @@ def gen(rng, i, tier):
             "fresh_projects": rng.random() < 0.5, "tier": tier}
     if rng.random() < 0.6:
         _add_versions(rng, case)
+    # some extends become Counter.update(iterable of frozen ballots)
+    for op in case["ops"]:
+        if op[0] == "extend_frozen" and rng.random() < 0.3:
+            op[0] = "update_frozen"
+    _decorate_ops(rng, case["ops"])
     return case
+
+
+# iterable KINDS the ballots are handed over in ('+fresh': temporaries built on the fly)
+KINDS_IT = ["list", "tuple", "gen", "map", "iter", "list+fresh", "gen+fresh", "map+fresh", "gen+fresh", "iter+fresh"]
+ONE_SHOT = ("gen", "map", "iter")
+# HEAD loses the ballots of a one-shot iterable in XMultiProfile(init=...) (validation loop exhausts it) and in
+# Profile.extend(...) (reported); these two combinations are generated only once they are repaired
+ONE_SHOT_INIT_OK = True
+ONE_SHOT_EXTEND_OK = True
+
+
+def _decorate_ops(rng, ops):
+    """give every multi-ballot op an iterable kind and, where a list profile is built, the way it is built"""
+    for op in ops:
+        if op[0] == "append":
+            continue
+        kind = rng.choice(KINDS_IT)
+        if op[0] == "extend" and len(set(op[1])) >= 2 and rng.random() < 0.5:
+            kind = rng.choice(["gen+fresh", "map+fresh"])      # temporaries handed straight to MultiProfile.extend
+        one_shot = kind.split("+")[0] in ONE_SHOT
+        if op[0] == "init" and one_shot and not ONE_SHOT_INIT_OK:
+            kind = rng.choice(["list", "tuple", "list+fresh"])
+        del op[2:]
+        op.append(kind)
+        if op[0] in ("conv", "profile", "extend_profile", "extend_conv"):
+            pmode = rng.choice(["ctor", "ctor", "extend", "iadd"])
+            if pmode == "extend" and one_shot and not ONE_SHOT_EXTEND_OK:
+                pmode = rng.choice(["ctor", "iadd"])
+            op.append(pmode)
 
 
 def _keys_of(kind, hist):
@@ -382,7 +418,7 @@ def stats(cases, obs):
     d = {"kind": {}, "first_op": {}, "merged_different_histories": 0, "len_lt_num": 0, "has_empty_ballot": 0,
          "has_deletion": 0, "history_len_hist": {}, "max_multiplicity_ge3": 0, "uninserted_ballot_queried": 0,
          "seeds": list(SEEDS["quick"]), "set_iteration_differs_between_seeds": 0,
-         "cases_with_edit_after_freeze": 0, "edited_versions": 0, "edit_then_refreeze_same_content": 0,
+         "iterable_kind": {}, "cases_with_edit_after_freeze": 0, "edited_versions": 0, "edit_then_refreeze_same_content": 0,
          "set_iteration_differs_between_equal_ballots": 0}
     for c, o in zip(cases, obs):
         if not isinstance(o, dict) or "per_seed" not in o:
@@ -396,6 +432,9 @@ def stats(cases, obs):
         d["max_multiplicity_ge3"] += max(s0["mult"] + [0]) >= 3
         d["has_empty_ballot"] += any(not it for it in s0["iter"])
         d["has_deletion"] += any(h[0] == "-" for b in c["ballots"] for h in b["hist"])
+        for op in c["ops"]:
+            if op[0] != "append" and len(op) > 2:
+                d["iterable_kind"][op[2]] = d["iterable_kind"].get(op[2], 0) + 1
         vs = [b for b in c["ballots"] if b.get("base") is not None]
         d["cases_with_edit_after_freeze"] += bool(vs)
         d["edited_versions"] += len(vs)
@@ -430,7 +469,7 @@ def shrink(case):
         if op[0] != "append" and len(op[1]) > 1:
             for t in range(len(op[1])):
                 c = dict(case)
-                c["ops"] = case["ops"][:j] + [[op[0], op[1][:t] + op[1][t + 1:]]] + case["ops"][j + 1:]
+                c["ops"] = case["ops"][:j] + [[op[0], op[1][:t] + op[1][t + 1:]] + op[2:]] + case["ops"][j + 1:]
                 yield c
     # drop a ballot
     for j in range(nb):
@@ -443,7 +482,7 @@ def shrink(case):
                 if op[1] != j:
                     ops.append(["append", ren(op[1])])
             else:
-                ops.append([op[0], [ren(i) for i in op[1] if i != j]])
+                ops.append([op[0], [ren(i) for i in op[1] if i != j]] + op[2:])
         c["ops"] = ops
         yield c
     # shorter histories
